@@ -1022,6 +1022,11 @@ class Engine:
                 # at least one process ran within the interval
                 # increase the time, apply updates, and continue
                 self.global_time += full_step
+                if self.global_time_precision is not None:
+                    # full_step is a difference of grid times: the sum
+                    # may be off the grid by a float error
+                    self.global_time = round(
+                        self.global_time, self.global_time_precision)
 
                 # advance all quiet processes to current time
                 for quiet in quiet_paths:
